@@ -88,6 +88,12 @@ Init == /\ st = EmptyEntry /\ asm = << >> /\ app = 0 /\ mid = 1 /\ blocks = 0 /\
         /\ h = << >> /\ delivered = << >> /\ idx = 0 /\ rep = 0
         /\ IF Mode \in {"dl", "dlre"} THEN InitDl ELSE InitUl
 
+\* a download whose application reply carries Observe (set 1) is an observation: the client repeats
+\* "Observe: register" on every request of the transfer, follow-up blocks included (not part of the key,
+\* no influence on how blocks are served)
+DlReq(m, b2) == LET q == MkReq(1, m, None, b2, << >>) IN
+                IF cfg.set = 1 THEN [q EXCEPT !.opts = << << 6, << << >> >> >> >> \o @] ELSE q
+
 Step(req, appv) == [op |-> "ireq", ep |-> "c", req |-> req, app |-> appv]
 NoApp == [some |-> FALSE]
 
@@ -140,7 +146,7 @@ Receive(reply, entry, x, sh, stepj) ==
 
 DlSend ==
   /\ pc = "send"
-  /\ LET req == MkReq(1, mid, None, nextB2, << >>)
+  /\ LET req == DlReq(mid, nextB2)
          x == InterceptRequest(st, req, cfg.M) IN
      IF x.out.k # "ok" \/ ~x.resp.some
      THEN /\ pc' = "fail" /\ viol' = Append(viol, "intercept_request refused an in-domain request")
@@ -169,7 +175,7 @@ DlSend ==
 \* the earlier, abandoned transfer: cfg.pre exchanges of another body with other options
 DlPre ==
   /\ pc = "pre"
-  /\ LET req == MkReq(1, mid, None, nextB2, << >>)
+  /\ LET req == DlReq(mid, nextB2)
          x == InterceptRequest(st, req, cfg.M)
          otherApp == [some |-> TRUE, v |-> [code |-> 69, pay |-> cfg.other, opts |-> << << 4, << << 9, 9 >> >> >> >>]]
          y == IF x.out = OkR(FALSE) /\ x.resp.some
@@ -187,7 +193,7 @@ DlPre ==
 DlRetransmit ==
   /\ Mode = "dlre" /\ pc = "send" /\ blocks > cfg.pre /\ rep = 0 /\ nextB2.some /\ nextB2.v.num > 0
   /\ LET prev == [nextB2.v EXCEPT !.num = @ - 1]
-         req == MkReq(1, mid, None, Some(prev), << >>)
+         req == DlReq(mid, Some(prev))
          x == InterceptRequest(st, req, cfg.M)
          fb == IF x.resp.some THEN FirstBlock(x.resp.v, OPT_BLOCK2) ELSE None
          sz == SizeOf(prev.szx) IN
